@@ -55,6 +55,7 @@ type Contract struct {
 	Text     []string // raw lines (hash for the ledger)
 	Cover    bool
 	NoFrame  bool
+	Prefix   bool // verify only the straight-line prefix of the body (see the prefix clause)
 	SeqLens  map[string]string // parameter -> length (number or spec constant)
 	Borrowed []string // results whose memory belongs to the callee's side (must not be written by the caller)
 	BVNames  []string
@@ -234,7 +235,7 @@ func (u *Universe) loadDeps(dir string) error {
 
 var clauseWords = map[string]bool{"requires": true, "ensures": true, "modifies": true, "panics": true,
 	"loop": true, "repr": true, "inline": true, "props": true, "opaque": true, "unroll": true, "note": true, "induct": true, "ihsubst": true, "cover": true,
-	"bv": true, "intvar": true, "theory": true, "returns": true, "decreases": true, "fieldmode": true, "variant": true, "let": true, "use": true, "check": true, "seqlen": true, "noframe": true, "borrowed": true, "specialize": true}
+	"bv": true, "intvar": true, "theory": true, "returns": true, "decreases": true, "fieldmode": true, "variant": true, "let": true, "use": true, "check": true, "seqlen": true, "prefix": true, "noframe": true, "borrowed": true, "specialize": true}
 
 func (u *Universe) parseContractFile(path, pkgPath string, deps bool) error {
 	data, err := os.ReadFile(path)
@@ -598,6 +599,12 @@ func (u *Universe) parseContractFile(path, pkgPath string, deps bool) error {
 			lastClause = nil
 		case "borrowed":
 			curC.Borrowed = append(curC.Borrowed, strings.Fields(rest)...)
+			lastClause = nil
+		case "prefix":
+			// prefix: only the statements of the body up to the first one outside the supported subset
+			// are executed (goroutine launches are skipped, what they capture becomes unknown); the
+			// `check` clauses are proved at that point, postconditions are not considered
+			curC.Prefix = true
 			lastClause = nil
 		case "seqlen":
 			// seqlen PARAM N|CONST: a slice-of-slices parameter with exactly that many elements
